@@ -607,6 +607,10 @@ bool Instance::configure_tx_txin() {
 
 uint256 Instance::calc_sighash() {
     uint256 hash;
+    if (tx->vin.size() != 1) {
+        fprintf(stderr, "error: a signature hash can only be computed for a transaction with exactly one input (the outputs spent by the other inputs are not known)\n");
+        exit(1);
+    }
     std::vector<CTxOut> spent_outputs;
     spent_outputs.emplace_back(txin->vout[txin_vout_index]);
     txdata = PrecomputedTransactionData();
